@@ -101,6 +101,19 @@ claim("C11", "other",
       "DESIGN.md §3 C11")
 
 
+claim("C05", "other",
+      "whole-program call graph over MIR + panic-site inventory with guard-discharge rules (dominating-comparison facts, interval analysis, family rules with machine-checked side conditions), audited-site table with required guards, SCC recursion classification, exhaustive LALR driver index proof",
+      "Totality as a reachability question: every panic-capable construct (MIR Assert for bounds / overflow / division - counted in both build modes -, calls to APIs documented to panic, explicit panics) reachable from the six parser entry points and the evaluator's public functions (quick: ~1060 bodies, ~445 sites; thorough adds result rendering and every pub fn of feel-evaluator) must be discharged by a local proof over the MIR (len/index/variant guards on the same places, interval analysis of widening arithmetic, constant folding, bounded counters), by a family rule (lexer position counter, parser value-stack depth from the grammar, Scope's RefCell re-entrancy, bison driver indices proved by exhaustive enumeration of all 282 x 61 table cells), or by an audited entry written after reading the code whose recorded guards must still dominate the site; anything else is a violation naming file:line and the call path. Call-graph cycles must be structural on an owned tree (checked on argument provenance) - the one exception, recursion through user function values, is a listed known finding (stack overflow on a deeply recursive FEEL function). Ten panics found this way were repaired with fix: commits.",
+      "May-analysis: an alarm means no proof and no audit. Trusts the panicking-API table for std/chrono/regex (external callees not in it are assumed total and counted in the evidence), the call graph (dyn calls by signature, std callbacks by trait), and the 115 audited entries (each with its reason and required guards in tables/audited_sites.json). Not decided: stack depth in bytes for nesting 200, termination of data-dependent loops (lexer, FeelIterator), time limits.",
+      "DESIGN.md §3 C05, §2.4 G1/G2/G8")
+
+claim("C12", "other",
+      "the C05 panic-site inventory (G1) and recursion classification (G2) from dmntk_model::parse, ModelEvaluator::new / evaluate_* and every public Workspace operation; reference-following recursion detection on the registries; write-lock self-deadlock rule",
+      "Same machinery as C05 with the model-level entry points (~1530 reachable bodies, ~450 sites): every reachable panic-capable site is discharged, audited or known. Reference-following recursion: every registry lookup function (DecisionEvaluator::evaluate, BusinessKnowledgeModelEvaluator::evaluate, DecisionServiceEvaluator::evaluate, the three item-definition evaluators, bring_knowledge_requirements_into_context) that lies on a call-graph cycle not passing through a generic FEEL evaluator call is reported: the pinned tree has no requirement-cycle detection, so all seven are listed as known findings, each with a witness model under known_findings_witnesses/ that makes the real code overflow its stack. While ModelEvaluator::new holds the write lock of a registry, the build it calls provably never locks the same registry again (8 acquisitions). Three index panics on malformed decision tables were repaired with a fix: commit.",
+      "Same trusted base as C05. roxmltree is a leaf assumed total on arbitrary text. The seven reference cycles are one missing validation pass (requirement / typeRef cycle detection), not repaired because it is a new pass over three relations rather than a local patch.",
+      "DESIGN.md §3 C12, §2.4 G1/G2/G5")
+
+
 def main():
     checks = []
     for pid in sorted(CLAIMED):
